@@ -522,7 +522,7 @@ func glueCorpus(r *Rng, st *Stats) {
 		{"div > a { :is(&, span) { color: red } } div > b { color: blue; :not(&) { order: 1 } }", noNest, ""},
 		{"a ~ b { :is(&, span) { color: red } } a + b { :not(&) { order: 2 } }", noNest, ""},
 		// must pass (fix a469678): rules that differ only in the namespace prefix are not duplicates
-		{"@namespace a url(http://a);@namespace b url(http://b);a|a{color:red}a{color:blue}b|a{color:red}", min, ""},
+		{"@namespace a url(http://a);@namespace b url(http://b);a|a{color:red}p{color:blue}b|a{color:red}", min, ""},
 		// directed probes (must pass): importance is part of a declaration's identity; layers keep first-declaration order
 		{"a{color:red!important;color:red} a.c1{color:blue}", min, ""},
 		{"a{color:red!important} a.c1{color:blue} a{color:red}", min, ""},
